@@ -47,6 +47,17 @@ Theorem C04_input_digest_sound :
 Proof. exact input_digest_sound. Qed.
 Print Assumptions C04_input_digest_sound.
 
+(* The components of the manifest key compared by the `ppkey` correspondence leg: equal model keys have the same
+   argument LIST (not concatenation), extra hashes, allow-listed variables and input digest. *)
+Theorem C04_pp_key_parts_sound :
+  forall (D : Type) (Deqb : D -> D -> bool), (forall a b : D, Deqb a b = true -> a = b) ->
+  forall a b : pp_key_parts D,
+    pp_key_eqb D Deqb a b = true ->
+    pk_plusplus D a = pk_plusplus D b /\ pk_args D a = pk_args D b /\ pk_extra D a = pk_extra D b /\
+    pk_env D a = pk_env D b /\ pk_input D a = pk_input D b.
+Proof. exact pp_key_eqb_sound. Qed.
+Print Assumptions C04_pp_key_parts_sound.
+
 (* Recording is given up (and the stored manifest left untouched) exactly when one of the includes the recorder
    has to look at is missing, not a regular file or directory, has mtime >= start or ctime >= start, or
    (unless ignore_time_macros) mentions __TIME__ — in particular a header with mtime < start and ctime < start
@@ -88,8 +99,14 @@ Proof. exact digest_chunk_independent. Qed.
 Print Assumptions C04_digest_chunk_independent.
 
 (* A direct-mode hit returns exactly the key the slow path would compute now.  The preprocessor `pp`, the files
-   it reads / probes and the main key function are abstract; `pp_frame` is the frame of the preprocessor.
-   Named side conditions: env_main_subset_env_pp (S16), no_new_shadowing_file (documented caveat). *)
+   it reads / probes, the main key function and the manifest (pp-level) key function `pp_key` are abstract;
+   `pp_frame` is the frame of the preprocessor.  Named side conditions:
+     pp_key_injective       the manifest key is injective in (hashed arguments / request, allow-listed environment,
+                            input digest): a request whose include-path-affecting arguments or environment changed
+                            never reaches the manifest of the old request.  Discharged for the real encoding by
+                            Properties/C02.v `C02_pp_encode_injective` (+ collision-freeness of BLAKE3); checked on the
+                            real function by the `ppkey` leg (boundary-shift / split / merge pairs) and end to end.
+     env_main_subset_env_pp (S16), no_new_shadowing_file (documented caveat). *)
 Theorem C04_mode_equivalence :
   forall (D : Type) (Deqb : D -> D -> bool) (H : bytes -> D) (HT : option bytes -> option N -> D),
     (forall a b : D, Deqb a b = true -> a = b) ->
@@ -99,18 +116,23 @@ Theorem C04_mode_equivalence :
            (reads probes : Req -> env_t -> fsnap -> bytes -> list path) (main_key : Req -> env_t -> bytes -> key),
       (forall req env fs0 d0 fs1 d1,
           same_inputs Req reads probes req env fs0 d0 fs1 d1 -> pp req env fs1 d1 = pp req env fs0 d0) ->
-      forall (cfg : config) (req : Req) (env0 env1 : env_t) (ops : list rec_op) (fs1 : fsnap) (date1 : bytes) (k : key),
+      forall (K : Type) (pp_key : Req -> env_t -> idigest D -> K),
+      forall (pp_key_injective :
+                forall r e d r' e' d', pp_key r e d = pp_key r' e' d' -> r = r' /\ e = e' /\ d = d'),
+      forall (input_path : path) (cfg : config) (req0 req1 : Req) (env0 env1 : env_t) (mk : K)
+             (ops : list rec_op) (fs1 : fsnap) (date1 : bytes) (k : key),
         forall (env_main_subset_env_pp : forall n, In n env_main -> In n env_pp),
           ignore_time_macros cfg = false ->
           (file_stat_matches cfg = true -> use_ctime_for_stat cfg = true ->
            forall op, In op ops -> stat_trust (ro_fs op) fs1) ->
-          filter_env env_pp env1 = filter_env env_pp env0 ->
-          (forall op, In op ops -> faithful Req env_pp env_main pp reads main_key cfg req env0 op) ->
+          (forall op, In op ops ->
+                      faithful D H HT Req env_pp env_main pp reads main_key K pp_key input_path cfg req0 env0 mk op) ->
+          in_manifest D H HT Req env_pp K pp_key input_path cfg req1 env1 fs1 date1 mk ->
           forall (no_new_shadowing_file :
-                    forall op p, In op ops -> In p (probes req (filter_env env_pp env0) (ro_fs op) (ro_date op)) ->
+                    forall op p, In op ops -> In p (probes req0 (filter_env env_pp env0) (ro_fs op) (ro_date op)) ->
                                  fs_get fs1 p = None),
             lookup_result_digest D Deqb H HT cfg fs1 date1 (run_recs D H HT cfg ops) = Some k ->
-            k = main_key req (filter_env env_main env1) (pp req (filter_env env_pp env1) fs1 date1).
+            k = main_key req1 (filter_env env_main env1) (pp req1 (filter_env env_pp env1) fs1 date1).
 Proof. exact mode_equivalence. Qed.
 Print Assumptions C04_mode_equivalence.
 
